@@ -1,7 +1,8 @@
 (* Property C11: vring state follows the protocol; kicks are dispatched iff
    started and enabled.  Statements only (model-level parts; the life-cycle
    over whole histories is decided by family dmn against Spec.DaemonSpec). *)
-From VV Require Import Base.Bits Base.Rt Base.Val Model.Daemon Spec.DaemonSpec Proofs.DaemonProofs Proofs.RingInvProofs.
+From VV Require Import Base.Bits Base.Rt Base.Val Model.Daemon Spec.DaemonSpec Proofs.DaemonProofs Proofs.RingInvProofs
+     Gen.GenCtl Model.CtlOps Model.CtlRun Proofs.CtlProofs.
 Open Scope N_scope.
 
 (* after the registration update, the ring's CURRENT kick descriptor is in its owner's epoll set
@@ -40,3 +41,44 @@ Theorem C11_invariant_means : forall s, RInv s ->
                       registered s t k = r_ready r && r_enabled r.
 Proof. intros s [H _] q r t idx k. apply H. Qed.
 Print Assumptions C11_invariant_means.
+
+(* ---- the control handlers REGENERATED from handler.rs (Gen/GenCtl.v: the statements of each handler, in order, as
+   operations over the ring primitives) compute exactly the model's handlers the theorems above are about - for every
+   state, ring index and argument.  A reordered, dropped or added operation in the source breaks the equation. ---- *)
+Theorem C11_set_vring_enable_regenerated : forall s q e f, run_handler ctl_set_vring_enable s q e f = h_set_vring_enable s q e.
+Proof. exact ctl_set_vring_enable_eq. Qed.
+Print Assumptions C11_set_vring_enable_regenerated.
+
+Theorem C11_get_vring_base_regenerated : forall s q e f, run_handler ctl_get_vring_base s q e f = h_get_vring_base s q.
+Proof. exact ctl_get_vring_base_eq. Qed.
+Print Assumptions C11_get_vring_base_regenerated.
+
+Theorem C11_set_vring_kick_regenerated : forall s q e file, run_handler ctl_set_vring_kick s q e (Some file) = h_set_vring_kick s q file.
+Proof. exact ctl_set_vring_kick_eq. Qed.
+Print Assumptions C11_set_vring_kick_regenerated.
+
+Theorem C11_set_vring_kick_without_descriptor_regenerated : forall s q e, run_handler ctl_set_vring_kick s q e None = h_set_vring_kick_none s q.
+Proof. exact ctl_set_vring_kick_none_eq. Qed.
+Print Assumptions C11_set_vring_kick_without_descriptor_regenerated.
+
+Theorem C11_set_vring_call_regenerated : forall s q e file, run_handler ctl_set_vring_call s q e (Some file) = h_set_vring_call s q file.
+Proof. exact ctl_set_vring_call_eq. Qed.
+Print Assumptions C11_set_vring_call_regenerated.
+
+Theorem C11_set_vring_err_regenerated : forall s q e f,
+  run_handler ctl_set_vring_err s q e f = match get_ring s q with Some _ => (s, DOk []) | None => (s, DErr) end.
+Proof. exact ctl_set_vring_err_eq. Qed.
+Print Assumptions C11_set_vring_err_regenerated.
+
+Theorem C11_reset_device_regenerated : forall s q e f, run_handler ctl_reset_device s q e f = h_reset_device s.
+Proof. exact ctl_reset_device_eq. Qed.
+Print Assumptions C11_reset_device_regenerated.
+
+(* the registration condition and the start condition, as the source states them *)
+Theorem C11_registration_condition_regenerated : forall ready enabled, ctl_reg_wanted ready enabled = ready && enabled.
+Proof. exact ctl_reg_wanted_spec. Qed.
+Print Assumptions C11_registration_condition_regenerated.
+
+Theorem C11_start_condition_regenerated : forall ready has_kick, ctl_needs_init ready has_kick = negb ready && has_kick.
+Proof. exact ctl_needs_init_spec. Qed.
+Print Assumptions C11_start_condition_regenerated.
